@@ -34,8 +34,13 @@ Section P.
     (oeqb_spec : forall x y : T, oeqb O x y = true <-> x = y) (ops : list (AddOp (T:=T))) (M' : @Model T) :
     run O (model0 O) ops = Some M' -> WF M' /\ Good O M' (ws M') /\ CustInj M'.
   Proof. exact (constructed_models_are_good O oeqb_spec ops M'). Qed.
+  (* ... and the root joint keeps its empty coordinate range (a premise of C03_inverse_dynamics_is_H_qddot_plus_bias) *)
+  Theorem C14_constructed_models_root_joint_is_empty (ops : list (AddOp (T:=T))) (M' : @Model T) :
+    run O (model0 O) ops = Some M' -> jq (getJ M' 0) + jdof (getJ M' 0) = 0.
+  Proof. exact (constructed_models_root_joint O ops M'). Qed.
 End P.
 Print Assumptions C14_rejected_addition_changes_nothing.
 Print Assumptions C14_addition_preserves_wellformedness.
 Print Assumptions C14_every_construction_sequence_is_wellformed.
 Print Assumptions C14_constructed_models_satisfy_the_workspace_invariant.
+Print Assumptions C14_constructed_models_root_joint_is_empty.
